@@ -16,10 +16,8 @@ pub fn intrinsically_ok(u: &Universe, s: SRef) -> Result<(), &'static str> {
     if c.excluded.is_some() {
         return Err("excluded");
     }
-    if let Some(l) = u.packages[s.pkg].locked {
-        if l != s.idx {
-            return Err("locked-out");
-        }
+    if u.packages[s.pkg].locked_out(s.idx) {
+        return Err("locked-out");
     }
     Ok(())
 }
@@ -134,13 +132,11 @@ pub fn valid(u: &Universe, p: &Problem, sol: &[SRef], soft: &[SRef]) -> Result<(
                     detail: u.display_solvable(s),
                 });
             }
-            if let Some(l) = u.packages[s.pkg].locked {
-                if l != s.idx {
-                    return Err(Invalid {
-                        clause: "locked-out-selected",
-                        detail: u.display_solvable(s),
-                    });
-                }
+            if u.packages[s.pkg].locked_out(s.idx) {
+                return Err(Invalid {
+                    clause: "locked-out-selected",
+                    detail: u.display_solvable(s),
+                });
             }
         }
     }
